@@ -3,20 +3,21 @@
    memory_table.go): program counter, stack with its limit, byte memory growing in words, storage,
    logs, jump-destination analysis, PUSH/DUP/SWAP, call data / code copies, environment and block
    instructions, RETURN/REVERT/STOP/INVALID, on top of the pure instructions of Model/EvmArith.v.
-   Not modelled (the model answers [OUnsup] when it meets them): SHA3, BALANCE, EXTCODE*, BLOCKHASH,
+   SHA3 is Model/Keccak.v.  Not modelled (the model answers [OUnsup] when it meets them): BALANCE, EXTCODE*,
    GAS, every call and create instruction, SELFDESTRUCT; gas is not metered - memory requests beyond
    64 KiB are classified as the real interpreter classifies them when it cannot pay (overflow of the
    size computation: failure; beyond the gas table's limit: out of gas) or left undecided.
    No proofs in this file. *)
 From Coq Require Import ZArith Bool List.
-From AnnVerif Require Import Model.EvmArith.
+From AnnVerif Require Import Model.EvmArith Model.Keccak.
 Import ListNotations.
 Open Scope Z_scope.
 
 Record env := mkEnv {
   e_address : Z; e_origin : Z; e_caller : Z; e_value : Z; e_gasprice : Z;
   e_coinbase : Z; e_time : Z; e_number : Z; e_difficulty : Z; e_gaslimit : Z;
-  e_data : list Z }.
+  e_data : list Z;
+  e_blockhash : Z -> Z }.          (* the hash of an earlier block, as the node's chain reader gives it *)
 
 Record mstate := mkM {
   m_pc : nat; m_stack : list Z; m_mem : list Z;
@@ -86,7 +87,7 @@ Definition valid_dest (code : list Z) (d : Z) : bool :=
 Inductive envk := EAddress | EOrigin | ECaller | ECallvalue | ECalldatasize | ECodesize | EGasprice | EReturndatasize
                 | ECoinbase | ETimestamp | ENumber | EDifficulty | EGaslimit | EPc | EMsize.
 Inductive instr :=
-| IStop | IJumpdest | IPure (arity : nat) (op : Z) | IEnv (k : envk)
+| IStop | IJumpdest | IPure (arity : nat) (op : Z) | IEnv (k : envk) | ISha3 | IBlockhash
 | ICalldataload | ICalldatacopy | ICodecopy | IReturndatacopy
 | IPop | IMload | IMstore | IMstore8 | ISload | ISstore | IJump | IJumpi
 | IPush (n : nat) | IDup (n : nat) | ISwap (k : nat) (* SWAP(k+1) *) | ILog (n : nat)
@@ -100,10 +101,12 @@ Definition decode (op : Z) : instr :=
           || ((22 <=? op) && (op <=? 24)) || ((26 <=? op) && (op <=? 29)) then IPure 2 op
   else if (op =? 8) || (op =? 9) then IPure 3 op
   else if (op =? 21) || (op =? 25) then IPure 1 op
+  else if op =? 32 then ISha3
   else if op =? 48 then IEnv EAddress else if op =? 50 then IEnv EOrigin else if op =? 51 then IEnv ECaller
   else if op =? 52 then IEnv ECallvalue else if op =? 53 then ICalldataload else if op =? 54 then IEnv ECalldatasize
   else if op =? 55 then ICalldatacopy else if op =? 56 then IEnv ECodesize else if op =? 57 then ICodecopy
   else if op =? 58 then IEnv EGasprice else if op =? 61 then IEnv EReturndatasize else if op =? 62 then IReturndatacopy
+  else if op =? 64 then IBlockhash
   else if op =? 65 then IEnv ECoinbase else if op =? 66 then IEnv ETimestamp else if op =? 67 then IEnv ENumber
   else if op =? 68 then IEnv EDifficulty else if op =? 69 then IEnv EGaslimit
   else if op =? 80 then IPop else if op =? 81 then IMload else if op =? 82 then IMstore else if op =? 83 then IMstore8
@@ -114,7 +117,7 @@ Definition decode (op : Z) : instr :=
   else if (144 <=? op) && (op <=? 159) then ISwap (Z.to_nat (op - 144))
   else if (160 <=? op) && (op <=? 164) then ILog (Z.to_nat (op - 160))
   else if op =? 243 then IReturn else if op =? 253 then IRevert
-  else if (op =? 32) || (op =? 49) || (op =? 59) || (op =? 60) || (op =? 63) || (op =? 64) || (op =? 90)
+  else if (op =? 49) || (op =? 59) || (op =? 60) || (op =? 63) || (op =? 90)
           || ((240 <=? op) && (op <=? 242)) || (op =? 244) || (op =? 245) || (op =? 250) || (op =? 255) then IUnsup
   else IInvalid.
 
@@ -124,10 +127,11 @@ Definition kind (i : instr) : nat * nat :=
   | IStop | IJumpdest => (0, 0)
   | IPure ar _ => (ar, 1)
   | IEnv _ => (0, 1)
-  | ICalldataload | IMload | ISload => (1, 1)
+  | ICalldataload | IMload | ISload | IBlockhash => (1, 1)
   | ICalldatacopy | ICodecopy | IReturndatacopy => (3, 0)
   | IPop | IJump => (1, 0)
   | IMstore | IMstore8 | ISstore | IJumpi | IReturn | IRevert => (2, 0)
+  | ISha3 => (2, 1)
   | IPush _ => (0, 1)
   | IDup n => (n, S n)
   | ISwap k => (k + 2, k + 2)        (* SWAP(k+1) *)
@@ -142,7 +146,7 @@ Definition instr_mem (i : instr) (s : list Z) : mneed :=
   | IMload | IMstore => mem_need (st s 0) 32
   | IMstore8 => mem_need (st s 0) 1
   | ICalldatacopy | ICodecopy | IReturndatacopy => mem_need (st s 0) (st s 2)
-  | ILog _ | IReturn | IRevert => mem_need (st s 0) (st s 1)
+  | ILog _ | IReturn | IRevert | ISha3 => mem_need (st s 0) (st s 1)
   | _ => MNone
   end.
 
@@ -170,6 +174,11 @@ Definition exec (e : env) (code : list Z) (i : instr) (m : mstate) : eff + outco
   | IJumpdest => keep []
   | IPure _ op => match eval op (st s 0) (st s 1) (st s 2) with Some r => keep [r] | None => inr OFail end
   | IEnv k => keep [env_val e code m k]
+  | ISha3 => keep [keccak_word (mslice mem (st s 0) (st s 1))]
+  | IBlockhash =>
+    (* the 256 most recent blocks, the current one excluded *)
+    let n := st s 0 in
+    keep [if (Z.max 0 (e_number e - 257) <? n) && (n <? e_number e) then e_blockhash e n else 0]
   | ICalldataload => keep [word_of_bytes (get_data (e_data e) (st s 0) 32)]
   | ICalldatacopy => withmem (if st s 2 =? 0 then mem else mem_write mem (Z.to_nat (st s 0)) (get_data (e_data e) (st s 1) (Z.to_nat (st s 2))))
   | ICodecopy => withmem (if st s 2 =? 0 then mem else mem_write mem (Z.to_nat (st s 0)) (get_data code (st s 1) (Z.to_nat (st s 2))))
